@@ -436,7 +436,7 @@ impl Run {
 		match purpose {
 			PaymentPurpose::Bolt11InvoicePayment { payment_preimage, payment_secret } => {
 				vensure!(!sh.keysend, "claimable-purpose", "{}: invoice purpose for a spontaneous payment", ctx);
-				let reg = self.model.regs.iter().find(|r| r.secret == Some(payment_secret.0) && r.hash == payment_hash.0);
+				let reg = self.model.regs.iter().find(|r| r.kind != RegKind::Keysend && r.secret == Some(payment_secret.0) && r.hash == payment_hash.0);
 				let Some(reg) = reg else { return Err(fail("claimable-secret-not-issued", format!("{}: secret {} was never issued by R for this hash", ctx, hex(&payment_secret.0)))) };
 				if let Some(min) = reg.min_amt {
 					vensure!(sh.amount >= min && sh.total >= min, "claimable-underpaid", "{}: amount {} / total {} below the registered minimum {}", ctx, sh.amount, sh.total, min);
